@@ -19,11 +19,19 @@
    the explicit coarse schedule — the writers of S, each whole, in section order, then the render — on which the
    coarse model's render returns exactly S.  Left out: the linearisation is built from the invariant's witness S,
    not by commuting the actions of the given fine schedule step by step; it covers ONE render's observation (not
-   several renders in one coarse schedule); trees are not partitioned by series (all threads of the instrumented
-   model work on one series s: a Put into another series is not in [series_thread s]); Badger / lfu contents are
-   not data.
+   several renders in one coarse schedule); Badger / lfu contents are not data.
+   SEVERAL SERIES (Proofs/C08Multi.v): profile trees are partitioned by series ([tree_series]); the instrumentation
+   tracks one series s at a time and the fine schedule does not depend on which ([C08_schedule_independent_of_
+   tracked_series]), so every statement holds for every series of the same run.  [C08_atomic_read_multi]: among
+   threads of ALL series a render of s observes a prefix S of the writers OF s, threads of other series write no
+   location of s ([C08_foreign_put_writes_nothing]).  A selector render takes ONE read section PER matching series
+   (Storage.Get loops over the segment keys: AggregationType and GetWithTimeline under each segment's own read
+   lock): [C08_atomic_read_selector] gives per-series atomicity for every matched series; the answer as a whole is
+   NOT a cross-series snapshot ([ex_C08_selector_not_a_snapshot]) — that is what the code guarantees and what the
+   property asks for (a query on a SINGLE series).  [C08_quiescent_sum_multi]: when every thread has finished, every
+   series holds exactly its writers, each whole.
    PARTIAL: the Go scheduler and the Go memory model are sampled by the correspondence run (race detector). *)
-From Pyro Require Import Model.Base Model.Conc Model.ConcData Proofs.ConcProofs Proofs.C08Reduction Proofs.C08Full.
+From Pyro Require Import Model.Base Model.Conc Model.ConcData Proofs.ConcProofs Proofs.C08Reduction Proofs.C08Full Proofs.C08Multi.
 From Coq Require Import Permutation.
 
 (* lockset: every thread of the table makes every access holding that location's lock in the right mode, and
@@ -163,9 +171,69 @@ Print Assumptions C08_render_disciplined.
 
 Example C08_full_run_nonvacuous :
   let d := snd (drun 0 2 (repeat 0 200 ++ repeat 2 40 ++ repeat 1 200 ++ repeat 2 200) full_example_threads) in
-  d_obs d = [(LocTree 3, [0]); (LocTree 1, [0; 1]); (LocSegTree 0, [0; 1]); (LocSegTree 0, [0; 1])] /\
+  d_obs d = [(LocTree 6, [0]); (LocTree 2, [0; 1]); (LocSegTree 0, [0; 1]); (LocSegTree 0, [0; 1])] /\
   d_snap d = Some ([0; 1], [0; 1], [0; 1; 2]).
 Proof. exact full_run_nonvacuous. Qed.
+
+(* ---- several series at once: N writers each owning its series, M readers, tasks -------------------------------- *)
+(* threads of ALL series (each Put merging into trees of its own series); g renders series s *)
+Theorem C08_atomic_read_multi : forall s g ts ds trs,
+  Forall mthread ts -> nth_error ts g = Some (get_thread s ds trs) ->
+  forall sched,
+  let d := snd (drun s g sched ts) in
+  forall S C T, d_snap d = Some (S, C, T) ->
+    (forall x v, In (x, v) (d_obs d) -> v = after_puts s ts S x) /\
+    NoDup S /\ (exists rest, d_order d = S ++ rest) /\
+    (forall i, In i C -> i <> g -> 0 < nwrites s (nth i ts []) -> In i S) /\
+    (forall i, In i S -> In i T) /\
+    (forall i, In i S -> i <> g /\ 0 < nwrites s (nth i ts [])).
+Proof. exact atomic_read_multi. Qed.
+Print Assumptions C08_atomic_read_multi.
+
+(* frame: an ingest into another series writes no location of s *)
+Theorem C08_foreign_put_writes_nothing : forall s sj ds cbs,
+  sj <> s -> owns sj cbs = true -> nwrites s (put_thread sj ds cbs) = 0.
+Proof. exact foreign_put_writes_nothing. Qed.
+Print Assumptions C08_foreign_put_writes_nothing.
+
+(* a selector matching several series: one read section per series; per-series atomicity for every matched series *)
+Theorem C08_atomic_read_selector : forall g ts ds sel,
+  Forall mthread2 ts -> nth_error ts g = Some (get_selector ds sel) -> selector_wf sel ->
+  forall sched s, In s (map fst sel) ->
+  let d := snd (drun s g sched ts) in
+  forall S C T, d_snap d = Some (S, C, T) ->
+    (forall x v, In (x, v) (d_obs d) -> v = after_puts s ts S x) /\
+    NoDup S /\ (exists rest, d_order d = S ++ rest) /\
+    (forall i, In i C -> i <> g -> 0 < nwrites s (nth i ts []) -> In i S) /\
+    (forall i, In i S -> In i T) /\
+    (forall i, In i S -> i <> g /\ 0 < nwrites s (nth i ts [])).
+Proof. exact atomic_read_selector. Qed.
+Print Assumptions C08_atomic_read_selector.
+
+Theorem C08_schedule_independent_of_tracked_series : forall s1 s2 g sched ts,
+  fst (drun s1 g sched ts) = fst (drun s2 g sched ts).
+Proof. exact drun_config_independent. Qed.
+Print Assumptions C08_schedule_independent_of_tracked_series.
+
+(* not a cross-series snapshot: the render misses an ingest into series 0 that was acknowledged before the ingest into
+   series 1 that it shows had even begun *)
+Example ex_C08_selector_not_a_snapshot :
+  d_obs (snd (drun 0 0 snap_sched snap_threads)) = [(LocTree 0, []); (LocSegTree 0, []); (LocSegTree 0, [])] /\
+  d_obs (snd (drun 1 0 snap_sched snap_threads)) = [(LocTree 1, [2]); (LocSegTree 1, [2]); (LocSegTree 1, [2])] /\
+  finished (fst (drun 0 0 snap_sched snap_threads)) = true.
+Proof. exact selector_not_a_snapshot. Qed.
+
+(* quiescence, every series: when all threads have finished, the locations of s hold exactly the writers of s, each
+   whole, in section order (merge being addition: the sum of everything acknowledged) *)
+Theorem C08_quiescent_sum_multi : forall s ts sched,
+  Forall mthread ts ->
+  let cd := drun s (length ts) sched ts in
+  finished (fst cd) = true ->
+  NoDup (d_order (snd cd)) /\
+  (forall i, In i (d_order (snd cd)) <-> 0 < nwrites s (nth i ts [])) /\
+  (forall x, tracked s x = true -> d_val (snd cd) x = after_puts s ts (d_order (snd cd)) x).
+Proof. exact quiescent_sum_multi. Qed.
+Print Assumptions C08_quiescent_sum_multi.
 
 (* every observation is covered: without the snapshot nothing was observed *)
 Theorem C08_no_observation_without_snapshot : forall s g ts,
@@ -185,8 +253,8 @@ Proof. exact full_templates_disciplined_instance. Qed.
 
 Example C08_fine_nonvacuous :
   let r := drun 0 2 [0;0;0;0;0;0; 2;2; 1;1;1; 0;0;0;0;0;0;0;0;0;0;0;0; 2;2;2;2; 1;1;1;1;1;1;1;1;1;1; 2;2;2;2;2;2;2;2;2;2;2]
-                (core_threads 0 [[1; 2]; [2]] [1; 2]) in
-  d_obs (snd r) = [(LocTree 2, [0]); (LocTree 1, [0]); (LocSegTree 0, [0]); (LocSegTree 0, [0])] /\
+                (core_threads 0 [[2; 4]; [4]] [2; 4]) in
+  d_obs (snd r) = [(LocTree 4, [0]); (LocTree 2, [0]); (LocSegTree 0, [0]); (LocSegTree 0, [0])] /\
   d_snap (snd r) = Some ([0], [0], [0; 2]).
 Proof. exact fine_nonvacuous. Qed.
 
